@@ -166,6 +166,12 @@ structure Rib where
   deferring : Bool := false
   /-- (prefix, announcing peer) -/
   paths : List (Nat × Peer) := []
+  /-- peers whose `Source` of this family carries the GR stale mark (`Source::mark_stale`; the
+      harness keeps one `Source` per (peer, family) for the whole case, as a session does, so the
+      mark also covers paths inserted later) -/
+  stale : List Peer := []
+  /-- ... the LLGR stale mark (`Source::mark_llgr_stale`) -/
+  llgr : List Peer := []
   deriving DecidableEq, Repr, Inhabited
 
 abbrev Tabs := Fam → Rib
@@ -195,46 +201,91 @@ def peersOf (n : Nat) (paths : List (Nat × Peer)) : List Peer :=
 /-- the destinations of a Rib (every destination has at least one path) -/
 def prefixes (paths : List (Nat × Peer)) : List Nat := dedup (paths.map (·.1))
 
+/-- paths whose next hop is reachable (`unfiltered_iter`: not filtered, not FLAG_NEXTHOP_INVALID); every
+    path of peer `p` has the next hop 10.0.0.(1+p), so validity is a property of the announcing peer
+    (`TableManager.nexthop_invalid`, consulted by `insert_route`, flipped by `update_nexthop_validity`) -/
+def usable (inv : List Peer) (paths : List (Nat × Peer)) : List (Nat × Peer) :=
+  paths.filter (fun e => !inv.contains e.2)
+
 /-- `Table::insert` (unfiltered path): stored always; a change is returned unless `deferring` -/
-def insert (t : Tabs) (p : Peer) (f : Fam) (n : Nat) : Tabs × List Change :=
+def insert (inv : List Peer) (t : Tabs) (p : Peer) (f : Fam) (n : Nat) : Tabs × List Change :=
   let r := t f
   let paths' := if r.paths.contains (n, p) then r.paths else r.paths ++ [(n, p)]
   let t' := t.set f { r with paths := paths' }
-  (t', if r.deferring then [] else [{ fam := f, pfx := n, peers := peersOf n paths' }])
+  (t', if r.deferring then [] else [{ fam := f, pfx := n, peers := peersOf n (usable inv paths') }])
 
 /-- `Table::remove`: the path is removed; a change is returned if it existed, unless `deferring` -/
-def remove (t : Tabs) (p : Peer) (f : Fam) (n : Nat) : Tabs × List Change :=
+def remove (inv : List Peer) (t : Tabs) (p : Peer) (f : Fam) (n : Nat) : Tabs × List Change :=
   let r := t f
   if r.paths.contains (n, p) then
     let paths' := r.paths.filter (· ≠ (n, p))
     (t.set f { r with paths := paths' },
-     if r.deferring then [] else [{ fam := f, pfx := n, peers := peersOf n paths' }])
+     if r.deferring then [] else [{ fam := f, pfx := n, peers := peersOf n (usable inv paths') }])
   else (t, [])
 
-/-- `Table::drop(addr, family)`: one change per destination that had a path of `p`, unless
+/-- `Table::drop(addr, family)`: one change per destination that had a usable path of `p`, unless
     `deferring` (`changes.clear()`) -/
-def dropPeer (t : Tabs) (p : Peer) (f : Fam) : Tabs × List Change :=
+def dropPeer (inv : List Peer) (t : Tabs) (p : Peer) (f : Fam) : Tabs × List Change :=
   let r := t f
   let paths' := r.paths.filter (fun e => e.2 ≠ p)
   let touched := prefixes (r.paths.filter (fun e => e.2 = p))
   (t.set f { r with paths := paths' },
-   if r.deferring then [] else touched.map (fun n => { fam := f, pfx := n, peers := peersOf n paths' }))
+   if r.deferring || inv.contains p then []
+   else touched.map (fun n => { fam := f, pfx := n, peers := peersOf n (usable inv paths') }))
+
+/-- `Table::restale(addr, family)` (`mark_stale`, from `unregister_peer(.., stale_families)`): the
+    `Source` of every path of `p` is marked; one change per destination holding a path of `p`
+    (`any_unfiltered_from_addr`), unless `deferring` -/
+def restale (inv : List Peer) (t : Tabs) (p : Peer) (f : Fam) : Tabs × List Change :=
+  let r := t f
+  let touched := prefixes (r.paths.filter (fun e => e.2 = p))
+  if touched.isEmpty then (t, [])
+  else
+    (t.set f { r with stale := if r.stale.contains p then r.stale else p :: r.stale },
+     if r.deferring then []
+     else touched.map (fun n => { fam := f, pfx := n, peers := peersOf n (usable inv r.paths) }))
+
+/-- `Table::restale_llgr(addr, family)` (`mark_llgr_stale`; no path carries NO_LLGR here): as
+    `restale` for the LLGR mark; one change per destination (the one usable path of `p`, reported as
+    replaced, or the destination as such when `p`'s next hop is unreachable) -/
+def restaleLlgr (inv : List Peer) (t : Tabs) (p : Peer) (f : Fam) : Tabs × List Change :=
+  let r := t f
+  let touched := prefixes (r.paths.filter (fun e => e.2 = p))
+  if touched.isEmpty then (t, [])
+  else
+    (t.set f { r with llgr := if r.llgr.contains p then r.llgr else p :: r.llgr },
+     if r.deferring then []
+     else touched.map (fun n => { fam := f, pfx := n, peers := peersOf n (usable inv r.paths) }))
+
+/-- `Table::drop_stale(addr, family)` / `drop_llgr_stale` (`marked` = the peer's `Source` of the
+    family carries the mark): the marked paths of `p` are removed; changes as for `drop` -/
+def purge (marked : Bool) (inv : List Peer) (t : Tabs) (p : Peer) (f : Fam) : Tabs × List Change :=
+  if marked then dropPeer inv t p f else (t, [])
+
+/-- `Table::update_nexthop_validity` for one family: every path of `p` flips; one change per
+    destination holding one, unless `deferring`; `inv'` is the set after the update -/
+def nhvFam (inv' : List Peer) (t : Tabs) (p : Peer) (f : Fam) : List Change :=
+  let r := t f
+  if r.deferring then []
+  else (prefixes (r.paths.filter (fun e => e.2 = p))).map
+    (fun n => { fam := f, pfx := n, peers := peersOf n (usable inv' r.paths) })
 
 /-- `Table::start_deferral` -/
 def startDeferral (t : Tabs) (f : Fam) : Tabs := t.set f { t f with deferring := true }
 
 /-- `Table::end_deferral`: clears the flag, returns `collect_loc_rib_paths(family)` -/
-def endDeferral (t : Tabs) (f : Fam) : Tabs × List Change :=
+def endDeferral (inv : List Peer) (t : Tabs) (f : Fam) : Tabs × List Change :=
   let r := t f
+  let ps := usable inv r.paths
   (t.set f { r with deferring := false },
-   (prefixes r.paths).map (fun n => { fam := f, pfx := n, peers := peersOf n r.paths, kind := .adv }))
+   (prefixes ps).map (fun n => { fam := f, pfx := n, peers := peersOf n ps, kind := .adv }))
 
 /-- `TableManager::end_deferral_families` -/
-def endDeferralFamilies : List Fam → Tabs → Tabs × List Change
+def endDeferralFamilies (inv : List Peer) : List Fam → Tabs → Tabs × List Change
   | [], t => (t, [])
   | f :: fs, t =>
-      let r1 := endDeferral t f
-      let r2 := endDeferralFamilies fs r1.1
+      let r1 := endDeferral inv t f
+      let r2 := endDeferralFamilies inv fs r1.1
       (r2.1, r1.2 ++ r2.2)
 
 def startDeferralFamilies (fs : List Fam) (t : Tabs) : Tabs := fs.foldl startDeferral t
@@ -267,6 +318,11 @@ structure St where
   univ : List Fam := []
   /-- `Global.selection_deferral_timer.is_some()` -/
   timer : Bool := false
+  /-- `TableManager.nexthop_invalid`, by announcing peer -/
+  invalid : List Peer := []
+  /-- sessions that are up, with the GR families negotiated on them (harness bookkeeping: what the
+      `PeerSession` handed to `finish_session` holds) -/
+  up : List (Peer × List Fam) := []
   deriving Inhabited
 
 /-- `StartDeferralTimer(Some(d))` among the outputs (`start_timer.flatten()`) -/
@@ -275,11 +331,11 @@ def startsTimer (outs : List ROut) : Bool :=
 
 /-- `process_restarting_outputs`, then (in `process_effects`) the spawn of the timer it asks for -/
 def applyOuts (s : St) (outs : List ROut) : St × List Change :=
-  let r1 := endDeferralFamilies (completeFamilies outs) s.tabs
+  let r1 := endDeferralFamilies s.invalid (completeFamilies outs) s.tabs
   let s' : St × List Change :=
     match endRemaining outs with
     | some remaining =>
-        let r2 := endDeferralFamilies remaining r1.1
+        let r2 := endDeferralFamilies s.invalid remaining r1.1
         -- `selection_deferral_timer.take().abort()`, `selection_deferral = None`
         ({ s with sd := none, tabs := r2.1, timer := false }, r1.2 ++ r2.2)
     | none => ({ s with tabs := r1.1 }, r1.2)
@@ -306,6 +362,12 @@ inductive Ev where
   | ins (p : Peer) (f : Fam) (n : Nat)    -- `insert_route`
   | rm (p : Peer) (f : Fam) (n : Nat)     -- `remove_route`
   | drop (p : Peer) (f : Fam)             -- `drop_families(addr, [f])`
+  | stale (p : Peer) (f : Fam)            -- `unregister_peer(addr, [], [f])` → `mark_stale` → `restale`
+  | llgr (p : Peer) (f : Fam)             -- `mark_llgr_stale(addr, [f])`
+  | purge (p : Peer) (f : Fam)            -- `drop_stale_families(addr, [f])`
+  | lpurge (p : Peer) (f : Fam)           -- `drop_llgr_stale_families(addr, [f])`
+  | nhv (p : Peer) (ok : Bool)            -- `update_nexthop_validity(10.0.0.(1+p), ok)`
+  | gdown (p : Peer)                      -- the session of `p` ends by an I/O error: `finish_session`
   deriving DecidableEq, Repr, Inhabited
 
 inductive Tag where
@@ -345,26 +407,72 @@ def obsOf (s : St) (outs : List ROut) (changes : List Change) : Obs :=
     pending := match s.sd with | some m => pendingOf m | none => [],
     installed := s.sd.isSome, flags := flagsOf s.tabs s.univ, timer := s.timer }
 
+/-- families a session carries in the harness (one `Source` each) -/
+def sessionFams : List Fam := [0, 1, 2]
+
+/-- `unregister_peer(addr, drop_families, stale_families)` as `finish_session` calls it for a session
+    that negotiated graceful restart for `gr` and ended by an I/O error: the GR families are kept
+    and marked stale, the others dropped -/
+def unregister (inv : List Peer) (p : Peer) (gr : List Fam) : List Fam → Tabs → Tabs × List Change
+  | [], t => (t, [])
+  | f :: fs, t =>
+      let r1 := if gr.contains f then restale inv t p f else dropPeer inv t p f
+      let r2 := unregister inv p gr fs r1.1
+      (r2.1, r1.2 ++ r2.2)
+
+/-- the entry of `p` in the list of sessions -/
+def sessOf (up : List (Peer × List Fam)) (p : Peer) : Option (List Fam) :=
+  (up.find? (fun e => e.1 = p)).map (·.2)
+
 def step (s : St) : Ev → St × Obs
   | .rd i =>
+      let up' := match i with
+        | .est p fams => (p, fams) :: s.up.filter (fun e => e.1 ≠ p)
+        | .wd p => s.up.filter (fun e => e.1 ≠ p)
+        | _ => s.up
+      let s0 : St := { s with up := up' }
       match s.sd with
       | some m =>
           let r := process m i
-          let s1 : St := { s with sd := some r.1 }
+          let s1 : St := { s0 with sd := some r.1 }
           let a := applyOuts s1 r.2
           -- (only a PeerEstablished input ever yields StartDeferralTimer, and only its call site,
           --  `process_effects(GrSessionEstablished)`, spawns the timer)
           (a.1, obsOf a.1 r.2 a.2)
-      | none => (s, obsOf s [] [])
+      | none => (s0, obsOf s0 [] [])
   | .ins p f n =>
-      let r := insert s.tabs p f n
+      let r := insert s.invalid s.tabs p f n
       ({ s with tabs := r.1 }, obsOf { s with tabs := r.1 } [] r.2)
   | .rm p f n =>
-      let r := remove s.tabs p f n
+      let r := remove s.invalid s.tabs p f n
       ({ s with tabs := r.1 }, obsOf { s with tabs := r.1 } [] r.2)
   | .drop p f =>
-      let r := dropPeer s.tabs p f
+      let r := dropPeer s.invalid s.tabs p f
       ({ s with tabs := r.1 }, obsOf { s with tabs := r.1 } [] r.2)
+  | .stale p f =>
+      let r := restale s.invalid s.tabs p f
+      ({ s with tabs := r.1 }, obsOf { s with tabs := r.1 } [] r.2)
+  | .llgr p f =>
+      let r := restaleLlgr s.invalid s.tabs p f
+      ({ s with tabs := r.1 }, obsOf { s with tabs := r.1 } [] r.2)
+  | .purge p f =>
+      let r := purge ((s.tabs f).stale.contains p) s.invalid s.tabs p f
+      ({ s with tabs := r.1 }, obsOf { s with tabs := r.1 } [] r.2)
+  | .lpurge p f =>
+      let r := purge ((s.tabs f).llgr.contains p) s.invalid s.tabs p f
+      ({ s with tabs := r.1 }, obsOf { s with tabs := r.1 } [] r.2)
+  | .nhv p ok =>
+      if s.invalid.contains p = !ok then (s, obsOf s [] [])   -- already in that state: nothing flips
+      else
+        let inv' := if ok then s.invalid.filter (· ≠ p) else p :: s.invalid
+        ({ s with invalid := inv' }, obsOf { s with invalid := inv' } [] (s.univ.flatMap (nhvFam inv' s.tabs p)))
+  | .gdown p =>
+      match sessOf s.up p with
+      | none => (s, obsOf s [] [])
+      | some gr =>
+          let r := unregister s.invalid p gr sessionFams s.tabs
+          let s' : St := { s with tabs := r.1, up := s.up.filter (fun e => e.1 ≠ p) }
+          (s', obsOf s' [] r.2)
 
 def runFrom (s : St) : List Ev → St × List Obs
   | [] => (s, [])
